@@ -112,7 +112,7 @@ def link_grammar(ctx, mutate=None, tag=""):
                    backend="table-compare", detail=T["start"], props=("C06", "C07")))
     out.append(Obl(pre + "table/no-conflicts", FN, "table", "the LALR(1) table has no shift/reduce or reduce/reduce conflict left to a default (premise of the assumed sly contract)",
                    status=DISCHARGED if not T["sr_conflicts"] and not T["rr_conflicts"] else REFUTED, backend="table-compare",
-                   detail="sr=%s rr=%s" % (T["sr_conflicts"], T["rr_conflicts"]), props=("C02", "C06", "C07"), model={"sr": T["sr_conflicts"], "rr": T["rr_conflicts"]}, replay=action_replay))
+                   detail="sr=%s rr=%s" % (T["sr_conflicts"], T["rr_conflicts"]), props=("C02", "C06", "C07", "C11"), model={"sr": T["sr_conflicts"], "rr": T["rr_conflicts"]}, replay=action_replay))
     out.append(Obl(pre + "table/no-error-productions", FN, "table", "no production mentions sly's `error` token (no grammar-level recovery)",
                    status=DISCHARGED if not T["has_error_productions"] else REFUTED, backend="table-compare", detail="", props=("C06",), replay=parser_replay))
     # ---- the LR tables sly generated vs an INDEPENDENT LALR(1) construction from G_ref (translation validation of the
@@ -223,7 +223,7 @@ def lr_table_obligations(T, G, pre, rn):
     out = []
     lr = T.get("lr")
     if lr is None:
-        return [Obl(pre + "lr/tables-dumped", FN, "table", "LR tables available", status=UNDECIDED, backend="native", detail="missing", props=("C02", "C06", "C07"))]
+        return [Obl(pre + "lr/tables-dumped", FN, "table", "LR tables available", status=UNDECIDED, backend="native", detail="missing", props=("C02", "C06", "C07", "C11"))]
     ref = lalr_ref.build()
     prodkey = {p["number"]: (rn(p["name"]), tuple(rn(x) for x in p["rhs"])) for p in T["productions"]}
     refkey = {i: pr for i, pr in enumerate(ref["prods"])}
@@ -292,7 +292,7 @@ def lr_table_obligations(T, G, pre, rn):
     out.append(Obl(pre + "lr/tables==independent-LALR(1)-construction-from-G_ref", FN, "table",
                    "the ACTION/GOTO tables sly generated are bisimilar to LALR(1) tables constructed independently from the documented grammar and precedence (so the accepted language and the tree selection are G_ref's, given the LR driver)",
                    status=DISCHARGED if ok else REFUTED, backend="lalr-compare", detail=mismatch or "%d states paired, %d table entries compared" % (len(pair), n_checked),
-                   props=("C02", "C06", "C07"), model={"mismatch": mismatch, "reference_conflicts": ref["conflicts"][:3]}, replay=parser_replay))
+                   props=("C02", "C06", "C07", "C11"), model={"mismatch": mismatch, "reference_conflicts": ref["conflicts"][:3]}, replay=parser_replay))
     # defaulted states: the driver takes their action WITHOUT reading the lookahead; only a state whose every lookahead
     # reduces by the same production may be defaulted (never the accept state: that would accept a prefix of the text)
     bad = []
@@ -302,7 +302,7 @@ def lr_table_obligations(T, G, pre, rn):
             bad.append("state %s defaulted to action %s with row %s" % (s, a, sorted(row)))
     out.append(Obl(pre + "lr/defaulted-states-are-pure-reduce-states", FN, "table",
                    "every state whose action the LR driver takes without a lookahead has that single REDUCE action on all its lookaheads (the accept state is never defaulted)",
-                   status=DISCHARGED if not bad else REFUTED, backend="table-compare", detail="; ".join(bad) or "%d defaulted states" % len(lr["defaulted"]), props=("C06", "C02"),
+                   status=DISCHARGED if not bad else REFUTED, backend="table-compare", detail="; ".join(bad) or "%d defaulted states" % len(lr["defaulted"]), props=("C06", "C02", "C11"),
                    model={"bad": bad}, replay=parser_replay))
     return out
 
